@@ -241,6 +241,9 @@ func cmdCheck(args []string) int {
 	wg.Wait()
 	// stand-alone lemma queries
 	for _, q := range extra {
+		if q.res != nil {
+			continue // decided structurally (SQL shape)
+		}
 		r := q.q.Solve(filepath.Join(outDir, "lemmas"), timeout)
 		q.res = &r
 	}
